@@ -5,6 +5,7 @@
 -/
 import Djc.Proofs.Render
 import Djc.Proofs.Leaf
+import Djc.Proofs.Tree
 namespace Djc.Props.C14
 open Djc.Tpl Djc.Render Djc.Proofs.Render
 
@@ -152,5 +153,43 @@ example :
   rw [h]
   decide +kernel
 end LeafExample
+
+/-! ### ids across a whole tree of components -/
+
+/-- **Ids are distinct across all instances of a page, at any nesting depth.**  For a component tag over any library of
+the tree fragment (`GoodLib`: components nested through their templates to any depth, in loops, recursively): the
+`get_context_data` calls made until the render returns — one per instance, nested ones deferred through the queue of
+`component_post_render` — carry the ids `w.nextId, w.nextId + 1, …, w'.nextId - 1`, each exactly once, in the order the
+instances were created; in particular no two instances share an id, and `Component.id` (the id handed to
+`get_context_data`, data source `selfId`) is the id under which the instance's renderer was queued
+(`Djc.Proofs.Tree.GoodR.id`). -/
+theorem component_tree_ids_distinct (env : Env) (hlib : Djc.Proofs.Tree.GoodLib env) (fuel : Nat)
+    (name : Str) (kwargs : List (Str × Expr)) (only dyn : Bool) (ctx : Ctx) (w w' : World) (toks : List Tok)
+    (hd : isDynName name = false) (hc : Djc.Proofs.Plain.ctxFree ctx = true) (hw : Djc.Proofs.Tree.WInv w)
+    (h : (renderCompTag env fuel name kwargs only dyn [] ctx).run.run w = (.ok toks, w')) :
+    ∃ evs, w'.events = w.events ++ evs ∧
+      Djc.Proofs.Tree.gcdIds evs = List.range' w.nextId (w'.nextId - w.nextId) ∧ (Djc.Proofs.Tree.gcdIds evs).Nodup := by
+  obtain ⟨evs, he, hg⟩ := ((Djc.Proofs.Tree.stmt_all env hlib fuel).tag name kwargs only dyn ctx w toks w' hd hc hw h).evs
+  exact ⟨evs, he, hg, by rw [hg]; exact List.nodup_range'⟩
+
+/-- **Every placeholder stands for exactly one queued instance.**  Inside a component's template (any context, any
+template of the fragment) the placeholders returned are pairwise distinct, were generated during this render, and each
+has a queued renderer carrying that very id. -/
+theorem placeholders_are_distinct_queued_instances (env : Env) (hlib : Djc.Proofs.Tree.GoodLib env) (fuel : Nat)
+    (nodes : List Node) (ctx : Ctx) (w w' : World) (toks : List Tok)
+    (ht : Djc.Proofs.Tree.tnodes nodes = true) (hc : Djc.Proofs.Plain.ctxFree ctx = true) (hw : Djc.Proofs.Tree.WInv w)
+    (h : (renderNodes env fuel nodes ctx).run.run w = (.ok toks, w')) :
+    (Djc.Proofs.Tree.holeIds toks).Nodup ∧
+      (∀ k ∈ Djc.Proofs.Tree.holeIds toks, w.nextId ≤ k ∧ k < w'.nextId ∧
+        ∃ r, alGet k w'.rendererCache = some r ∧ r.id = k) := by
+  have hb := Djc.Proofs.Tree.tree_render_balanced env hlib fuel nodes ctx w w' toks ht hc hw h
+  refine ⟨hb.nodup, fun k hk => ⟨(hb.range k hk).1, (hb.range k hk).2, ?_⟩⟩
+  obtain ⟨r, hr, hg⟩ := hb.rcNew k hk
+  exact ⟨r, hr, hg.id⟩
+
+/-- instance (kernel-evaluated): page > list > two leaves in a loop, one leaf beside the list — ids 1‥5, markers in
+document order `page 1, list 2, leaf 4, leaf 5, leaf 3` -/
+example : Djc.Proofs.Tree.exSummary false = true ∧ Djc.Proofs.Tree.exSummary true = true :=
+  ⟨by decide +kernel, by decide +kernel⟩
 
 end Djc.Props.C14
